@@ -14,7 +14,7 @@ NOT_DECIDED = [
 ASSUMPTIONS = ["A6 analytic axiom schemas: exp_pos, exp_gt_1_plus_x, exp_lt_inv, exp_mono, log_exp, exp_log, sin2_cos2, arcsin_def, cos_nonneg_principal, pi_bounds"]
 
 C, H, K = "constants.speed_of_light", "constants.planck", "constants.boltzmann"
-DOM = {"f": (1e8, 1e13), "T": (2.0, 1e4), "l": (1e-6, 1.0), "n": (1.0, 1e5), "r": (1e-20, 1e-10)}
+DOM = {"f": (1e8, 1e13), "T": (2.0, 1e4), "l": (2e-5, 1.0), "n": (1.0, 5e4), "r": (1e-20, 1e-10)}      # (h f / k T stays below 600: no float64 underflow)
 
 
 def _c(name, **kw):
